@@ -1,5 +1,6 @@
 """Contracts (harnesses) on a816/cpu/mapping.py -- properties C04 (bus laws), used by C02/C03/C05/C20."""
 from a816.cpu.mapping import Address, Bus, Mapping
+from a816.parse.parser_states import parse_map
 from vf.contracts.rt import assume, check, ghost
 from vf.specs import busmath, busmodel
 
@@ -277,3 +278,9 @@ def bus_map_contract(bus, identifier, bank_range, mask, writeable, mirror, b):
         if old != identifier and old != identifier + "_mirror":
             check("others_same_entry", e is old_entry)
     check("still_editable", bus.editable is True)
+
+
+def parse_map_literals_contract(p, expected):
+    """`.map` attributes from tokens: every number is read as the literal it is -- decimal, 0x hexadecimal or 0b binary -- a pair `a,b` as the pair."""
+    node = parse_map(p)
+    check("attributes_are_the_literal_values", dict(node.args) == expected)
